@@ -1,5 +1,6 @@
 import copy
 import datetime
+import decimal
 import functools
 import collections
 
@@ -13,6 +14,9 @@ def total(values):
 
 
 def average(values):
+    if all(isinstance(v, int) and not isinstance(v, bool) for v in values):
+        # exact (a `number` is a Decimal), also for integers beyond 2**53
+        return decimal.Decimal(total(values)) / len(values)
     return total(values) / len(values)
 
 
